@@ -711,10 +711,12 @@ impl Q {
     }
     /// F4 signature: a boolean node with exactly one clause, SHOULD, msm ≥ 2
     fn sig_f4(&self) -> bool {
+        if SINGLE_GUARD.load(std::sync::atomic::Ordering::Relaxed) { return false; }
         self.any(&|q| matches!(q, Q::Bool(cs, Some(m)) if cs.len() == 1 && cs[0].0 == Oc::Should && *m >= 2))
     }
     /// same shortcut, other face: exactly one clause, MUST, msm ≥ 1
     fn sig_f4m(&self) -> bool {
+        if SINGLE_GUARD.load(std::sync::atomic::Ordering::Relaxed) { return false; }
         self.any(&|q| matches!(q, Q::Bool(cs, Some(m)) if cs.len() == 1 && cs[0].0 == Oc::Must && *m >= 1))
     }
     /// a phrase (or phrase-prefix) somewhere below a MUST_NOT clause
@@ -1092,6 +1094,11 @@ fn active_deviation(ctx: &mut Ctx, cl: &str, vocab: &HashMap<u32, BTreeSet<Vec<u
     }
     None
 }
+
+/// does the single-clause branch of BooleanWeight::scorer honour minimum_number_should_match?
+/// (the extractor reads the guard from the source; the model reports it with `C03 guard`) —
+/// when it does, the F4 hypotheses are void and single-clause booleans are checked like any other
+static SINGLE_GUARD: std::sync::atomic::AtomicBool = std::sync::atomic::AtomicBool::new(false);
 
 static LAST_PANIC: std::sync::Mutex<String> = std::sync::Mutex::new(String::new());
 
@@ -1908,6 +1915,9 @@ pub fn run(ctx: &mut Ctx) {
             *g = info.to_string().chars().take(300).collect();
         }
     }));
+    let guard = ctx.model.ask("C03 guard");
+    SINGLE_GUARD.store(guard == "1", std::sync::atomic::Ordering::Relaxed);
+    ctx.report.notes.push(format!("single-clause msm guard in BooleanWeight::scorer (extracted): {guard}"));
     if let Some(case) = ctx.replay.clone() {
         replay(ctx, &case);
         return;
